@@ -74,58 +74,149 @@ def catfirst(run, p, cd):
 
 
 def rfail(run, p, cd):
-    run.rule('C05-RFAIL', 'whatever check_dataframe reports as a difference also fails the check: every report call is control-dependent only '
-                          'on values that flow into the returned failures count')
-    rets = [r for r in ast.walk(cd.node) if isinstance(r, ast.Return) and r.value is not None]
-    if len(rets) != 1:
-        raise AnalysisError('check_dataframe has %d returns' % len(rets))
-    fl = None
-    v = rets[0].value
-    if isinstance(v, ast.Call):
-        for k in v.keywords:
-            if k.arg == 'failures':
-                fl = k.value
-        if fl is None and v.args:
-            fl = v.args[0]
-    if fl is None:
-        raise AnalysisError('check_dataframe: returned failures expression not found')
-    R = dep_closure(cd.node, names_in(fl), control=True)
-    gm = GuardMap(cd.node)
+    run.rule('C05-RFAIL', 'whatever check_dataframe reports as a difference also fails the check: on every path through the function '
+                          '(branching on each test, the flags it sets followed exactly) on which a difference reporter has run, the '
+                          'failure count returned is non-zero; and a path that reports nothing and keeps its flag returns zero')
+    helpers = {}
+    for _c, ts, _k in p.calls(cd):
+        for g, _ctx in ts:
+            if g.cls is cd.cls and g is not cd:
+                reps = sorted({x.func.attr for x in p.own_nodes(g) if isinstance(x, ast.Call) and isinstance(x.func, ast.Attribute) and x.func.attr in REPORTERS})
+                if reps:
+                    helpers[g.name] = reps
+
+    def reporters_in(node):
+        out = []
+        for x in ast.walk(node):
+            if isinstance(x, ast.Call) and isinstance(x.func, ast.Attribute):
+                if x.func.attr in REPORTERS:
+                    out.append(x.func.attr)
+                elif x.func.attr in helpers and norm(x.func.value) == 'self':
+                    out += helpers[x.func.attr]
+        return out
+
+    def truth(e, env):
+        if isinstance(e, ast.Constant):
+            return bool(e.value)
+        if isinstance(e, ast.Name):
+            return env.get(e.id)
+        if isinstance(e, ast.UnaryOp) and isinstance(e.op, ast.Not):
+            v = truth(e.operand, env)
+            return None if v is None else not v
+        if isinstance(e, ast.BoolOp):
+            vs = [truth(v, env) for v in e.values]
+            if isinstance(e.op, ast.And):
+                return False if any(v is False for v in vs) else (True if all(v is True for v in vs) else None)
+            return True if any(v is True for v in vs) else (False if all(v is False for v in vs) else None)
+        return None
+
+    def refine(e, val, env):
+        env = dict(env)
+        if isinstance(e, ast.Name):
+            env[e.id] = val
+        elif isinstance(e, ast.UnaryOp) and isinstance(e.op, ast.Not):
+            return refine(e.operand, not val, env)
+        elif isinstance(e, ast.BoolOp) and isinstance(e.op, ast.And) and val:
+            for v in e.values:
+                env = refine(v, True, env)
+        elif isinstance(e, ast.BoolOp) and isinstance(e.op, ast.Or) and not val:
+            for v in e.values:
+                env = refine(v, False, env)
+        return env
+
+    def count_of(e, env):
+        """the failure count an expression denotes: 0, 'nonzero' or None (not known)"""
+        if isinstance(e, ast.Constant) and isinstance(e.value, int):
+            return 0 if e.value == 0 else 'nonzero'
+        if isinstance(e, ast.IfExp):
+            t = truth(e.test, env)
+            if t is None:
+                a, b_ = count_of(e.body, env), count_of(e.orelse, env)
+                return a if a == b_ else None
+            return count_of(e.body if t else e.orelse, env)
+        if isinstance(e, ast.Name) and ('#count:' + e.id) in env:
+            return env['#count:' + e.id]
+        return None
+    exits = []
+    budget = [200000]
+
+    def run_block(stmts, states):
+        for st in stmts:
+            nxt = []
+            for env, rep in states:
+                budget[0] -= 1
+                if budget[0] < 0:
+                    raise AnalysisError('check_dataframe has too many paths to enumerate')
+                if isinstance(st, ast.Return):
+                    v = st.value
+                    fl = None
+                    if isinstance(v, ast.Call):
+                        fl = next((k.value for k in v.keywords if k.arg == 'failures'), v.args[0] if v.args else None)
+                    elif isinstance(v, ast.Tuple) and v.elts:
+                        fl = v.elts[0]
+                    exits.append((st, rep, count_of(fl, env) if fl is not None else None, dict(env)))
+                    continue
+                if isinstance(st, ast.If):
+                    rep2 = rep + reporters_in(st.test)
+                    t = truth(st.test, env)
+                    outs = []
+                    if t is not False:
+                        outs += run_block(st.body, [(refine(st.test, True, env), rep2)])
+                    if t is not True:
+                        outs += run_block(st.orelse, [(refine(st.test, False, env), rep2)])
+                    nxt += outs
+                    continue
+                if isinstance(st, (ast.For, ast.While)):
+                    nxt.append((env, rep))
+                    nxt += run_block(st.body, [(dict(env), list(rep))])
+                    continue
+                if isinstance(st, ast.Try):
+                    nxt += run_block(st.body + st.orelse + st.finalbody, [(env, rep)])
+                    for h in st.handlers:
+                        nxt += run_block(h.body + st.finalbody, [(dict(env), list(rep))])
+                    continue
+                if isinstance(st, ast.With):
+                    nxt += run_block(st.body, [(env, rep)])
+                    continue
+                env = dict(env)
+                rep = rep + reporters_in(st)
+                if isinstance(st, ast.Assign):
+                    for t_ in st.targets:
+                        names = [t_] if isinstance(t_, ast.Name) else ([x for x in t_.elts if isinstance(x, ast.Name)] if isinstance(t_, (ast.Tuple, ast.List)) else [])
+                        for nm in names:
+                            env.pop(nm.id, None)
+                            env.pop('#count:' + nm.id, None)
+                            if isinstance(t_, ast.Name):
+                                tv = truth(st.value, env) if isinstance(st.value, (ast.Constant, ast.Name, ast.UnaryOp, ast.BoolOp)) else None
+                                if isinstance(st.value, ast.Constant) and isinstance(st.value.value, bool) or tv is not None:
+                                    env[nm.id] = tv
+                                c_ = count_of(st.value, env)
+                                if c_ is not None:
+                                    env['#count:' + nm.id] = c_
+                nxt.append((env, rep))
+            # merge identical states to keep the enumeration small
+            seen = {}
+            for env, rep in nxt:
+                seen[(tuple(sorted((k, str(v)) for k, v in env.items())), tuple(sorted(set(rep))))] = (env, sorted(set(rep)))
+            states = list(seen.values())
+        return states
+    run_block(cd.node.body, [({}, [])])
+    if not exits:
+        raise AnalysisError('check_dataframe has no return')
     n = 0
-    for x in p.own_nodes(cd):
-        if isinstance(x, ast.Call) and isinstance(x.func, ast.Attribute) and x.func.attr in REPORTERS:
-            n += 1
-            ch = gm.chain(x) or ()
-            used = set()
-            for g in ch:
-                if g.kind == 'if':
-                    used |= {y for y in names_in(g.test) if not y.startswith('self')}
-            miss = sorted(used - R)
-            run.ob('C05-RFAIL', '%s::%s::%s' % (cd.rel, cd.short, x.func.attr), not miss,
-                   '%s is reported under %s%s' % (x.func.attr, sorted(used), '' if not miss else '; %s does not flow into the returned failure count' % miss),
-                   fn=cd, node=x)
-    # the failure expression itself
-    # two-row table: 0 failures exactly when the flag that every reported difference clears is still set
-    from ..pyeval import Interp, Unsupported
-    e = fl
-    seen = 0
-    while isinstance(e, ast.Name) and seen < 4:
-        defs = [s for s in ast.walk(cd.node) if isinstance(s, ast.Assign) and any(isinstance(t, ast.Name) and t.id == e.id for t in s.targets)]
-        if len(defs) != 1:
-            break
-        e = defs[0].value
-        seen += 1
-    flags = sorted(n0 for n0 in names_in(e) if n0 in R and '.' not in n0)
-    I = Interp(p)
-    ok = False
-    if len(flags) == 1:
-        try:
-            ok = I.expr(e, {flags[0]: True}, cd.mod) == 0 and bool(I.expr(e, {flags[0]: False}, cd.mod))
-        except Unsupported as ex:
-            raise AnalysisError('check_dataframe: returned failure count %s not evaluable: %s' % (norm(e), ex))
-    run.ob('C05-RFAIL', '%s::%s::return' % (cd.rel, cd.short), ok,
-           'returns failures=%s: 0 when %s is true, non-zero when it is false' % (norm(e), flags[0] if flags else '?'), fn=cd, node=rets[0], nontrivial=False)
-    run.floor('C05-RFAIL', n, 6)
+    reported = sorted({r for _st, rep, _c, _e in exits for r in rep})
+    for r in reported:
+        n += 1
+        bad = [(st, c_) for st, rep, c_, _e in exits if r in rep and c_ != 'nonzero']
+        run.ob('C05-RFAIL', '%s::%s::%s' % (cd.rel, cd.short, r), not bad,
+               '%s is reported on %d paths; %s' % (r, sum(1 for _s, rep, _c, _e in exits if r in rep),
+                                                  'every one of them returns a non-zero failure count' if not bad else
+                                                  'on one of them the count returned at line %d %s' % (bad[0][0].lineno, 'is 0' if bad[0][1] == 0 else 'is not known to be non-zero')),
+               fn=cd, node=bad[0][0] if bad else None)
+    quiet = [c_ for _st, rep, c_, _e in exits if not rep]
+    run.ob('C05-RFAIL', '%s::%s::return' % (cd.rel, cd.short), any(c_ == 0 for c_ in quiet) or not quiet,
+           '%d paths report nothing; a zero failure count is reachable among them: %s' % (len(quiet), any(c_ == 0 for c_ in quiet)), fn=cd, nontrivial=False)
+    run.floor('C05-RFAIL', n, 5)
 
 
 def state(run, p, pc):
